@@ -203,3 +203,68 @@ def optional_lifts(prog, chk, rid, min_instances=4):
                           'column written through the inverse helper does not come back as written' % short)
     if n < min_instances:
         chk.fail_broken('%s: only %d optional-lifting util helper(s) found (expected >= %d)' % (rid, n, min_instances))
+
+
+def lost_updates(prog, chk, rid, min_instances=20):
+    """A local object (not a reference) whose members are assigned and which is then never read
+    again - except inside those assignments themselves - receives an update that is lost: typically
+    `auto x = container.back(); x.field = ...;` where a reference was meant.  One instance per local
+    with member assignments, over every library function."""
+    def base_var(n):
+        n = strip(n)
+        while n.get('kind') in ('MemberExpr', 'ArraySubscriptExpr', 'ParenExpr', 'ImplicitCastExpr'):
+            c = children(n)
+            if not c:
+                return None, None
+            n = strip(c[0])
+        if n.get('kind') == 'DeclRefExpr':
+            return (n.get('referencedDecl') or {}).get('id'), n
+        return None, None
+    total = 0
+    for f in prog.functions.values():
+        if f.body is None or f.is_pattern or not prog.in_repo(f.file):
+            continue
+        locals_ = {}
+        for x in walk(f.body):
+            if x.get('kind') == 'VarDecl':
+                t = x.get('type') or ''
+                if '&' in t or '*' in t:
+                    continue
+                locals_[x.get('id')] = x
+        if not locals_:
+            continue
+        writes = {}
+        for x in walk(f.body):
+            lhs = None
+            if x.get('kind') in ('BinaryOperator', 'CompoundAssignOperator') and \
+                    (x.get('opcode') or '') in ('=', '+=', '-=', '*=', '/=', '|=', '&=', '^=', '<<=', '>>=', '%='):
+                lhs = strip(children(x)[0])
+            elif x.get('kind') == 'CXXOperatorCallExpr':
+                c = children(x)
+                if (strip(c[0]).get('referencedDecl') or {}).get('name') == 'operator=' and len(c) > 2:
+                    lhs = strip(c[1])
+            if lhs is not None and lhs.get('kind') == 'MemberExpr':
+                vid, node = base_var(lhs)
+                if vid in locals_:
+                    writes.setdefault(vid, []).append(x)
+        for vid, ws in writes.items():
+            inside = set()
+            for w in ws:
+                for y in walk(w):
+                    inside.add(id(y))
+            reads = [x for x in walk(f.body) if x.get('kind') == 'DeclRefExpr' and
+                     (x.get('referencedDecl') or {}).get('id') == vid and id(x) not in inside]
+            total += 1
+            d = locals_[vid]
+            short = '::'.join((f.qualname or '').split('::')[-2:])
+            inst = '%s: local %s (%s) has %d member assignment(s) and is used afterwards' % (
+                short, d.get('name'), (d.get('type') or '')[:40], len(ws))
+            if reads:
+                chk.ok(rid, inst, locstr(d))
+            else:
+                chk.violation(rid, '%s|%s|update lost on a local copy' % (short, d.get('name')), locstr(ws[0]),
+                              '%s: local %s is a copy (type %s, not a reference); its members are assigned at %s and '
+                              'the object is never read again, so the update never reaches the object it was '
+                              'copied from' % (short, d.get('name'), d.get('type'), locstr(ws[0])))
+    if total < min_instances:
+        chk.fail_broken('%s: only %d local(s) with member assignments found (expected >= %d)' % (rid, total, min_instances))
